@@ -352,6 +352,157 @@ Proof. exact stitch_not_atomic_witness. Qed.
 Print Assumptions C19_stitch_error_keeps_earlier_writes.
 
 (* ================================================================== *)
+(** ** 6. one BootGuard object, one buffer, one file used again and again
+
+    [bg_state] is what the operations read and write of one BootGuard object: the segment
+    list of every SE element ([segs_of st i]; [se_count st] elements) and the digest list of
+    SE[0] ([bg_digs st]: algorithm, bytes the stored digest was computed over).  [step ver st
+    o] is one call ([OCreateSegs se flags fit], [OCreateSegsCbfs ..], [OGetDigest alg layout
+    image], [OCreateDigest layout image], [OMatch image]) or an assignment by the caller
+    ([OSetSegs], [OSetAlgs]); [run] / [final] a sequence of them.  The image (layout, bytes,
+    FIT, CBFS directory) is an argument of the call: the model has no other memory, so every
+    result below is about the image the call was given, whatever was processed before. *)
+
+(** CreateIBBSegments REPLACES the list: whatever SE[i] held before (a loaded manifest, an
+    earlier call), afterwards it holds exactly one segment per startup entry of this image, in
+    FIT order; no other SE element and no digest changes. *)
+Theorem C19_create_segments_replaces : forall ver st i flags fit st',
+  step ver st (OCreateSegs i flags (Some fit)) = (st', RUnit (Ok tt)) ->
+  0 <= i < se_count st /\
+  segs_of st' i = map (startup_seg flags) (filter is_startup fit) /\
+  (forall j, 0 <= j -> j <> i -> segs_of st' j = segs_of st j) /\
+  bg_digs st' = bg_digs st /\ se_count st' = se_count st.
+Proof. exact step_create_segs_replaces. Qed.
+Print Assumptions C19_create_segments_replaces.
+
+Theorem C19_create_segments_cbfs_replaces : forall ver st i flags file_size cbfs_off files st',
+  step ver st (OCreateSegsCbfs i flags file_size cbfs_off files) = (st', RUnit (Ok tt)) ->
+  0 <= i < se_count st /\
+  segs_of st' i = map (cbfs_seg flags file_size cbfs_off) (filter is_ibb_file files) /\
+  (forall j, 0 <= j -> j <> i -> segs_of st' j = segs_of st j) /\
+  bg_digs st' = bg_digs st /\ se_count st' = se_count st.
+Proof. exact step_create_segs_cbfs_replaces. Qed.
+Print Assumptions C19_create_segments_cbfs_replaces.
+
+(** ... and the call succeeds on every object that has the SE element. *)
+Theorem C19_create_segments_total_any_object : forall ver st i flags fit,
+  0 <= i < se_count st ->
+  step ver st (OCreateSegs i flags (Some fit)) =
+  (put_segs st i (map (startup_seg flags) (filter is_startup fit)), RUnit (Ok tt)).
+Proof. exact step_create_segs_total. Qed.
+Print Assumptions C19_create_segments_total_any_object.
+
+(** A call that fails (no FIT, no such SE element) leaves the object as it was. *)
+Theorem C19_create_segments_failed_untouched : forall ver st i flags fit st' res,
+  step ver st (OCreateSegs i flags fit) = (st', res) -> res <> RUnit (Ok tt) -> st' = st.
+Proof. exact step_create_segs_failed_untouched. Qed.
+Print Assumptions C19_create_segments_failed_untouched.
+
+(** a manifest loaded with three stale segments in SE[0] and one in SE[1]; FIT with two
+    startup entries: SE[0] holds exactly these two afterwards, SE[1] keeps its own *)
+Theorem C19_create_segments_second_call_witness :
+  step 2 (mkBG [[mkSeg 4294901760 4096 0; mkSeg 4294905856 256 0; mkSeg 1 2 3]; [mkSeg 7 7 7]] [(11, None)])
+       (OCreateSegs 0 0 (Some [mkFE 0 2314885531223937887 4; mkFE 7 (4294967296 - 48) 1;
+                               mkFE 11 (4294967296 - 16) 8; mkFE 7 (4294967296 - 32) 1])) =
+  (mkBG [[mkSeg (4294967296 - 48) 16 0; mkSeg (4294967296 - 32) 16 0]; [mkSeg 7 7 7]] [(11, None)],
+   RUnit (Ok tt)).
+Proof. exact step_create_segs_second_call_witness. Qed.
+Print Assumptions C19_create_segments_second_call_witness.
+
+(** After ANY sequence of calls and assignments the segment list of SE[i] is the one of the
+    LAST CreateIBBSegments(i, ..): one segment per startup entry of that call's image, nothing
+    of earlier lists or images (as long as nobody wrote SE[i] afterwards). *)
+Theorem C19_seq_segments_of_last_create : forall ver st pre i flags fit post,
+  0 <= i < se_count st ->
+  Forall (fun o => writes_se o <> Some i) post ->
+  segs_of (final ver st (pre ++ OCreateSegs i flags (Some fit) :: post)) i =
+  map (startup_seg flags) (filter is_startup fit).
+Proof. exact run_segments_of_last_create. Qed.
+Print Assumptions C19_seq_segments_of_last_create.
+
+Theorem C19_seq_segments_of_last_create_cbfs : forall ver st pre i flags file_size cbfs_off files post,
+  0 <= i < se_count st ->
+  Forall (fun o => writes_se o <> Some i) post ->
+  segs_of (final ver st (pre ++ OCreateSegsCbfs i flags file_size cbfs_off files :: post)) i =
+  map (cbfs_seg flags file_size cbfs_off) (filter is_ibb_file files).
+Proof. exact run_segments_of_last_create_cbfs. Qed.
+Print Assumptions C19_seq_segments_of_last_create_cbfs.
+
+(** What a call may change: only the segment list it was asked to write ... *)
+Theorem C19_seq_segments_frame : forall ver st o j,
+  0 <= j -> writes_se o <> Some j -> segs_of (fst (step ver st o)) j = segs_of st j.
+Proof. exact step_segs_frame. Qed.
+Print Assumptions C19_seq_segments_frame.
+
+(** ... GetIBBsDigest and IBBsMatchBPMDigest nothing, CreateIBBDigest only digests,
+    CreateIBBSegments no digest. *)
+Theorem C19_seq_reads_only : forall ver st o,
+  match o with
+  | OGetDigest _ _ _ | OMatch _ => fst (step ver st o) = st
+  | OCreateDigest _ _ => bg_segs (fst (step ver st o)) = bg_segs st
+  | OCreateSegs _ _ _ | OCreateSegsCbfs _ _ _ _ _ | OSetSegs _ _ => bg_digs (fst (step ver st o)) = bg_digs st
+  | OSetAlgs _ => bg_segs (fst (step ver st o)) = bg_segs st
+  end.
+Proof. exact step_reads_only. Qed.
+Print Assumptions C19_seq_reads_only.
+
+(** GetIBBsDigest on an object with any history, on any image (any layout whose mapped
+    region lies inside the image, also one that does not end at the end of the image): the
+    bytes of THAT image at the offsets corresponding to the segments' addresses. *)
+Theorem C19_seq_digest_exact : forall ver st alg l region_end img,
+  0 < se_count st ->
+  anchored l (zlen img) region_end -> region_end <= zlen img ->
+  alg_supported ver alg = true ->
+  Forall (fun s => included s = true -> seg_in_region region_end img s) (segs_of st 0) ->
+  step ver st (OGetDigest alg l img) =
+  (st, RDigest (Ok (alg, concat (map (fun s => slice img (spec_offset region_end (sg_base s)) (sg_size s))
+                                     (filter included (segs_of st 0)))))).
+Proof. exact step_get_digest_exact. Qed.
+Print Assumptions C19_seq_digest_exact.
+
+(** the same buffer holding two layouts one after the other *)
+Theorem C19_seq_two_layouts_witness :
+  snd (run 2 (mkBG [[mkSeg (4294967296 - 16) 8 0]] [(11, None)])
+           [OGetDigest 11 (LIFD 16 32) (seqZ 0 64); OGetDigest 11 LBiosOnly (seqZ 0 64)]) =
+  [RDigest (Ok (11, seqZ 32 8)); RDigest (Ok (11, seqZ 48 8))].
+Proof. exact run_two_layouts_witness. Qed.
+Print Assumptions C19_seq_two_layouts_witness.
+
+(** The generation chain of bg-prov on an object with ANY history (segments and digests of
+    other images or of earlier calls in every SE element): for one image CreateIBBSegments,
+    CreateIBBDigest, IBBsMatchBPMDigest leave one segment per startup entry of THAT image, for
+    every listed algorithm the hash of THAT image's bytes [p] (digest = H alg p), and the
+    independent validation accepts. *)
+Theorem C19_seq_pipeline_any_history : forall ver st flags fit l img,
+  0 < se_count st ->
+  anchored l (zlen img) (zlen img) ->
+  Forall (fun e => is_startup e = true -> fit_entry_wf e) fit ->
+  Forall (fun s => included s = true -> seg_in_region (zlen img) img s)
+         (map (fun e => mkSeg (fe_addr e) (16 * fe_size e) flags) (filter is_startup fit)) ->
+  Forall (fun ad => alg_supported ver (fst ad) = true) (bg_digs st) ->
+  bg_digs st <> [] ->
+  let segs := map (fun e => mkSeg (fe_addr e) (16 * fe_size e) flags) (filter is_startup fit) in
+  let p := concat (map (fun s => slice img (spec_offset (zlen img) (sg_base s)) (sg_size s))
+                       (filter included segs)) in
+  run ver st [OCreateSegs 0 flags (Some fit); OCreateDigest l img; OMatch img] =
+  (mkBG (set_nth 0 segs (bg_segs st)) (map (fun ad => (fst ad, Some p)) (bg_digs st)),
+   [RUnit (Ok tt); RUnit (Ok tt); RBool (Ok true)]).
+Proof. exact run_pipeline_any_history. Qed.
+Print Assumptions C19_seq_pipeline_any_history.
+
+(** Stitching the same file twice (same FIT): still no byte outside the targeted entries'
+    regions of either call differs from the original file. *)
+Theorem C19_stitch_twice_only_entry_regions : forall l img fit acm1 bpm1 km1 acm2 bpm2 km2 i,
+  anchored l (zlen img) (zlen img) -> entries_in_window (zlen img) fit ->
+  Forall (fun e => fe_type e = T_SACM -> spec_offset (zlen img) (fe_addr e) + zlen acm1 <= zlen img) fit ->
+  0 <= i ->
+  (forall e, In e fit -> ~ in_entry_region (zlen img) e acm1 bpm1 km1 i) ->
+  (forall e, In e fit -> ~ in_entry_region (zlen img) e acm2 bpm2 km2 i) ->
+  zn (fst (stitch l (fst (stitch l img (Some fit) acm1 bpm1 km1)) (Some fit) acm2 bpm2 km2)) i = zn img i.
+Proof. exact stitch_twice_frame_region. Qed.
+Print Assumptions C19_stitch_twice_only_entry_regions.
+
+(* ================================================================== *)
 (** ** the hypotheses are satisfiable *)
 
 (** a 64-byte "flash image" with a descriptor-style layout: BIOS region [16, 64) *)
@@ -409,4 +560,30 @@ Proof.
     apply Forall_nil.
   - split; [vm_compute; repeat split; constructor|].
     unfold in_entry_region, entry_span, spec_offset, BASE. cbn. lia.
+Qed.
+
+(** an object with a history (stale segments in both SE elements, a digest of another image)
+    on which the generation chain is run for the 64-byte image above *)
+Example ex_history : bg_state :=
+  mkBG [[mkSeg 1 2 3; mkSeg (4294967296 - 8) 8 0]; [mkSeg 7 7 7]] [(11, Some [1; 2; 3]); (12, None)].
+
+Example ex_pipeline_hyps :
+  0 < se_count ex_history /\
+  Forall (fun e => is_startup e = true -> fit_entry_wf e) ex_fit /\
+  Forall (fun s => included s = true -> seg_in_region 64 (seqZ 0 64) s)
+         (map (fun e => mkSeg (fe_addr e) (16 * fe_size e) 0) (filter is_startup ex_fit)) /\
+  Forall (fun ad => alg_supported 2 (fst ad) = true) (bg_digs ex_history) /\
+  run 2 ex_history [OCreateSegs 0 0 (Some ex_fit); OCreateDigest (LIFD 16 48) (seqZ 0 64); OMatch (seqZ 0 64)] =
+  (mkBG [[mkSeg (4294967296 - 48) 16 0; mkSeg (4294967296 - 32) 16 0]; [mkSeg 7 7 7]]
+        [(11, Some (seqZ 16 32)); (12, Some (seqZ 16 32))],
+   [RUnit (Ok tt); RUnit (Ok tt); RBool (Ok true)]).
+Proof.
+  split; [vm_compute; reflexivity|].
+  split; [repeat constructor; cbn; intros; try discriminate; unfold W32; cbn; lia|].
+  split; [|split; [repeat constructor|vm_compute; reflexivity]].
+  assert (E : map (fun e => mkSeg (fe_addr e) (16 * fe_size e) 0) (filter is_startup ex_fit) =
+              [mkSeg (4294967296 - 48) 16 0; mkSeg (4294967296 - 32) 16 0]) by (vm_compute; reflexivity).
+  rewrite E.
+  apply Forall_cons; [|apply Forall_cons; [|apply Forall_nil]];
+    intros _; unfold seg_in_region, seg_inside, spec_offset, BASE; cbn; lia.
 Qed.
